@@ -179,8 +179,8 @@ Proof.
   - apply PB.
   - apply OI.
   - apply pal_byte_lt.
-  - unfold ppu_read_obp0, u8. lia.
-  - unfold ppu_read_obp1, u8. lia.
+  - apply pal_byte_lt.
+  - apply pal_byte_lt.
   - apply PB.
   - apply PB.
   - exact I1.
@@ -270,9 +270,9 @@ Proof.
   - apply bi_set_ppu; [exact H|exact (lcd_inv_write _ _ LcdSpec.BGP v LI)|]. destruct PB. destruct (s_ppu s); constructor; cbn in *; try assumption.
     repeat split; first [apply land3_lt4 | apply two_lt4].
   - apply bi_set_ppu; [exact H|exact (lcd_inv_write _ _ LcdSpec.OBP0 v LI)|]. destruct PB. destruct (s_ppu s); constructor; cbn in *; try assumption.
-    destruct PB_obp2 as (? & ? & ? & ?). repeat split; first [assumption | apply two_lt4].
+    repeat split; first [apply land3_lt4 | apply two_lt4].
   - apply bi_set_ppu; [exact H|exact (lcd_inv_write _ _ LcdSpec.OBP1 v LI)|]. destruct PB. destruct (s_ppu s); constructor; cbn in *; try assumption.
-    destruct PB_obp3 as (? & ? & ? & ?). repeat split; first [assumption | apply two_lt4].
+    repeat split; first [apply land3_lt4 | apply two_lt4].
   - apply bi_set_ppu; [exact H|exact (lcd_inv_write _ _ LcdSpec.WY v LI)|]. destruct PB. destruct (s_ppu s); constructor; assumption.
   - apply bi_set_ppu; [exact H|exact (lcd_inv_write _ _ LcdSpec.WX v LI)|]. destruct PB. destruct (s_ppu s); constructor; assumption.
   - apply bi_set_ints; [exact H|]. unfold ints_write_ie, ints_bytes; cbn. auto.
